@@ -1,0 +1,517 @@
+//! Verification hooks.  Compiled only with `--cfg transparencies_stretto_verif`; with the flag
+//! off this module does not exist and no call site refers to it.
+//!
+//! * `clock`: a process-wide virtual wall clock that `ttl.rs` uses instead of
+//!   `std::time::SystemTime`.
+//! * `Hooks`, `install`, `yield_point`, `note`: named scheduling points (may block) and
+//!   add-only event notes the harness can subscribe to.
+//! * controllable cleanup ticker for the cache processors.
+//! * thin read-only facades over crate-private types, and snapshots of a whole cache.
+#![allow(missing_docs, dead_code, clippy::all)]
+
+use std::sync::{Arc, Mutex as StdMutex, RwLock as StdRwLock};
+
+/// Virtual wall clock.
+pub mod clock {
+    use std::sync::atomic::{AtomicU64, Ordering};
+    use std::time::Duration;
+
+    static NOW_NS: AtomicU64 = AtomicU64::new(1_000_000_000_000_000_000);
+
+    /// Same API subset as `std::time::SystemTime`, backed by `NOW_NS`.
+    #[derive(Copy, Clone, Eq, PartialEq, Ord, PartialOrd, Hash, Debug)]
+    pub struct SystemTime(pub u64);
+
+    pub const UNIX_EPOCH: SystemTime = SystemTime(0);
+
+    #[derive(Copy, Clone, Debug)]
+    pub struct SystemTimeError;
+
+    impl SystemTime {
+        pub fn now() -> Self {
+            SystemTime(NOW_NS.load(Ordering::SeqCst))
+        }
+
+        pub fn duration_since(&self, earlier: SystemTime) -> Result<Duration, SystemTimeError> {
+            if self.0 >= earlier.0 {
+                Ok(Duration::from_nanos(self.0 - earlier.0))
+            } else {
+                Err(SystemTimeError)
+            }
+        }
+
+        pub fn elapsed(&self) -> Result<Duration, SystemTimeError> {
+            SystemTime::now().duration_since(*self)
+        }
+    }
+
+    pub fn set_ns(ns: u64) {
+        NOW_NS.store(ns, Ordering::SeqCst)
+    }
+
+    pub fn now_ns() -> u64 {
+        NOW_NS.load(Ordering::SeqCst)
+    }
+
+    pub fn advance_ns(ns: u64) -> u64 {
+        NOW_NS.fetch_add(ns, Ordering::SeqCst) + ns
+    }
+}
+
+/// What a harness can subscribe to.
+pub trait Hooks: Send + Sync + 'static {
+    /// A named scheduling point; may block the calling thread.  Never called with a lock held.
+    fn yield_point(&self, name: &'static str);
+    /// An event note; must not block.
+    fn note(&self, name: &'static str, args: &[u64]);
+}
+
+static HOOKS: StdRwLock<Option<Arc<dyn Hooks>>> = StdRwLock::new(None);
+
+pub fn install(h: Option<Arc<dyn Hooks>>) {
+    *HOOKS.write().unwrap() = h;
+}
+
+#[inline]
+pub fn yield_point(name: &'static str) {
+    let h = HOOKS.read().unwrap().clone();
+    if let Some(h) = h {
+        h.yield_point(name)
+    }
+}
+
+#[inline]
+pub fn note(name: &'static str, args: &[u64]) {
+    let h = HOOKS.read().unwrap().clone();
+    if let Some(h) = h {
+        h.note(name, args)
+    }
+}
+
+// ------------------------------------------------------------------------------------------
+// controllable cleanup ticker
+
+#[cfg(feature = "sync")]
+static SYNC_TICKER: StdMutex<Option<crossbeam_channel::Receiver<std::time::Instant>>> =
+    StdMutex::new(None);
+
+/// The next sync cache processor to be spawned takes `rx` as its cleanup ticker.
+#[cfg(feature = "sync")]
+pub fn set_sync_ticker(rx: Option<crossbeam_channel::Receiver<std::time::Instant>>) {
+    *SYNC_TICKER.lock().unwrap() = rx;
+}
+
+#[cfg(feature = "sync")]
+pub(crate) fn sync_ticker(
+    orig: crossbeam_channel::Receiver<std::time::Instant>,
+) -> crossbeam_channel::Receiver<std::time::Instant> {
+    SYNC_TICKER.lock().unwrap().take().unwrap_or(orig)
+}
+
+#[cfg(feature = "async")]
+static ASYNC_TICKER: StdMutex<Option<async_channel::Receiver<std::time::Instant>>> =
+    StdMutex::new(None);
+
+#[cfg(feature = "async")]
+pub fn set_async_ticker(rx: Option<async_channel::Receiver<std::time::Instant>>) {
+    *ASYNC_TICKER.lock().unwrap() = rx;
+}
+
+#[cfg(feature = "async")]
+pub(crate) fn async_ticker<T>(
+    orig: T,
+) -> std::pin::Pin<Box<dyn futures::Stream<Item = std::time::Instant> + Send>>
+where
+    T: futures::Stream<Item = std::time::Instant> + Send + 'static,
+{
+    match ASYNC_TICKER.lock().unwrap().take() {
+        Some(rx) => Box::pin(rx),
+        None => Box::pin(orig),
+    }
+}
+
+// ------------------------------------------------------------------------------------------
+// component facades
+
+use crate::bbloom::Bloom;
+use crate::policy::TinyLFU;
+use crate::sketch::{CountMinRow, CountMinSketch};
+
+pub struct VRow(CountMinRow);
+
+impl VRow {
+    pub fn new(width: u64) -> Self {
+        VRow(CountMinRow::new(width))
+    }
+    pub fn get(&self, i: u64) -> u8 {
+        self.0.get(i)
+    }
+    pub fn increment(&mut self, i: u64) {
+        self.0.increment(i)
+    }
+    pub fn reset(&mut self) {
+        self.0.reset()
+    }
+    pub fn clear(&mut self) {
+        self.0.clear()
+    }
+    pub fn bytes(&self) -> Vec<u8> {
+        self.0.verif_bytes()
+    }
+    pub fn set_bytes(&mut self, b: &[u8]) {
+        self.0.verif_set_bytes(b)
+    }
+}
+
+#[derive(Clone, Debug, PartialEq, Eq)]
+pub struct SketchSnap {
+    pub rows: Vec<Vec<u8>>,
+    pub seeds: [u64; 4],
+    pub mask: u64,
+}
+
+pub struct VSketch(CountMinSketch);
+
+impl VSketch {
+    pub fn new(ctrs: u64) -> Result<Self, crate::CacheError> {
+        CountMinSketch::new(ctrs).map(VSketch)
+    }
+    pub fn set_seeds(&mut self, seeds: [u64; 4]) {
+        self.0.verif_set_seeds(seeds)
+    }
+    pub fn increment(&mut self, h: u64) {
+        self.0.increment(h)
+    }
+    pub fn estimate(&self, h: u64) -> i64 {
+        self.0.estimate(h)
+    }
+    pub fn reset(&mut self) {
+        self.0.reset()
+    }
+    pub fn clear(&mut self) {
+        self.0.clear()
+    }
+    pub fn snap(&self) -> SketchSnap {
+        self.0.verif_snap()
+    }
+}
+
+#[derive(Clone, Debug, PartialEq, Eq)]
+pub struct BloomSnap {
+    pub words: Vec<u64>,
+    pub size: u64,
+    pub size_exp: u64,
+    pub set_locs: u64,
+    pub shift: u64,
+}
+
+pub struct VBloom(Bloom);
+
+impl VBloom {
+    pub fn new(cap: usize, fp: f64) -> Self {
+        VBloom(Bloom::new(cap, fp))
+    }
+    pub fn add(&mut self, h: u64) {
+        self.0.add(h)
+    }
+    pub fn contains(&self, h: u64) -> bool {
+        self.0.contains(h)
+    }
+    pub fn contains_or_add(&mut self, h: u64) -> bool {
+        self.0.contains_or_add(h)
+    }
+    pub fn reset(&mut self) {
+        self.0.reset()
+    }
+    pub fn clear(&mut self) {
+        self.0.clear()
+    }
+    pub fn snap(&self) -> BloomSnap {
+        self.0.verif_snap()
+    }
+}
+
+#[derive(Clone, Debug, PartialEq, Eq)]
+pub struct TlfuSnap {
+    pub sketch: SketchSnap,
+    pub bloom: BloomSnap,
+    pub samples: u64,
+    pub w: u64,
+}
+
+pub struct VTinyLFU(TinyLFU);
+
+impl VTinyLFU {
+    pub fn new(n: usize) -> Result<Self, crate::CacheError> {
+        TinyLFU::new(n).map(VTinyLFU)
+    }
+    pub fn set_seeds(&mut self, seeds: [u64; 4]) {
+        self.0.verif_set_seeds(seeds)
+    }
+    pub fn estimate(&self, h: u64) -> i64 {
+        self.0.estimate(h)
+    }
+    pub fn increment(&mut self, h: u64) {
+        self.0.increment(h)
+    }
+    pub fn increments(&mut self, hs: Vec<u64>) {
+        self.0.increments(hs)
+    }
+    pub fn clear(&mut self) {
+        self.0.clear()
+    }
+    pub fn contains(&self, h: u64) -> bool {
+        self.0.contains(h)
+    }
+    pub fn snap(&self) -> TlfuSnap {
+        self.0.verif_snap()
+    }
+}
+
+#[derive(Clone, Debug, PartialEq, Eq)]
+pub struct PolicySnap {
+    pub key_costs: Vec<(u64, i64)>,
+    pub used: i64,
+    pub max_cost: i64,
+    pub tlfu: TlfuSnap,
+}
+
+/// The sync policy (its worker thread is real; nothing is pushed to it through this facade).
+#[cfg(feature = "sync")]
+pub struct VPolicy(crate::policy::LFUPolicy);
+
+#[cfg(feature = "sync")]
+impl VPolicy {
+    pub fn new(ctrs: usize, max_cost: i64) -> Result<Self, crate::CacheError> {
+        crate::policy::LFUPolicy::new(ctrs, max_cost).map(VPolicy)
+    }
+    pub fn with_metrics(ctrs: usize, max_cost: i64) -> Result<(Self, Arc<crate::Metrics>), crate::CacheError> {
+        let mut p = crate::policy::LFUPolicy::new(ctrs, max_cost)?;
+        let m = Arc::new(crate::Metrics::new_op());
+        p.collect_metrics(m.clone());
+        Ok((VPolicy(p), m))
+    }
+    pub fn set_seeds(&self, seeds: [u64; 4]) {
+        self.0.inner.lock().verif_tlfu_mut().verif_set_seeds(seeds)
+    }
+    /// `(victims, added)` exactly as `LFUPolicy::add` returns them.
+    pub fn add(&self, key: u64, cost: i64) -> (Option<Vec<(u64, i64)>>, bool) {
+        let (v, a) = self.0.add(key, cost);
+        (v.map(|v| v.iter().map(|p| (p.key, p.cost)).collect()), a)
+    }
+    pub fn update(&self, key: u64, cost: i64) {
+        self.0.update(&key, cost)
+    }
+    pub fn remove(&self, key: u64) {
+        self.0.remove(&key)
+    }
+    pub fn contains(&self, key: u64) -> bool {
+        self.0.contains(&key)
+    }
+    pub fn cost(&self, key: u64) -> i64 {
+        self.0.cost(&key)
+    }
+    pub fn cap(&self) -> i64 {
+        self.0.cap()
+    }
+    pub fn clear(&self) {
+        self.0.clear()
+    }
+    pub fn max_cost(&self) -> i64 {
+        self.0.max_cost()
+    }
+    pub fn update_max_cost(&self, mc: i64) {
+        self.0.update_max_cost(mc)
+    }
+    pub fn increment(&self, h: u64) {
+        self.0.inner.lock().verif_tlfu_mut().increment(h)
+    }
+    pub fn estimate(&self, h: u64) -> i64 {
+        self.0.inner.lock().verif_tlfu_mut().estimate(h)
+    }
+    pub fn push(&self, keys: Vec<u64>) -> Result<bool, crate::CacheError> {
+        self.0.push(keys)
+    }
+    pub fn close(&self) -> Result<(), crate::CacheError> {
+        self.0.close()
+    }
+    pub fn snap(&self) -> PolicySnap {
+        self.0.inner.lock().verif_snap()
+    }
+}
+
+// ------------------------------------------------------------------------------------------
+// store / expiry index facades
+
+use crate::store::ShardedMap;
+use crate::ttl::Time;
+
+#[derive(Clone, Debug, PartialEq, Eq)]
+pub struct EntrySnap<V> {
+    pub index: u64,
+    pub conflict: u64,
+    pub value: V,
+    pub created_ns: u64,
+    pub ttl_ns: u64,
+}
+
+pub fn time_parts(t: &Time) -> (u64, u64) {
+    t.verif_parts()
+}
+
+pub type Buckets = Vec<(i64, Vec<(u64, u64)>)>;
+
+// ------------------------------------------------------------------------------------------
+// whole-cache snapshots
+
+#[derive(Clone, Debug, PartialEq, Eq)]
+pub struct CacheSnap<V> {
+    pub store: Vec<EntrySnap<V>>,
+    pub buckets: Buckets,
+    pub policy: PolicySnap,
+    pub ring: Vec<u64>,
+    pub buf_len: usize,
+    pub pol_queue_len: usize,
+    pub closed: bool,
+    pub pol_closed: bool,
+    pub item_size: usize,
+    /// the eleven counters in `MetricType` order, when metrics are on
+    pub metrics: Option<[u64; 11]>,
+    /// life-expectancy histogram `(count, sum, min, max, buckets)`, when metrics are on
+    pub hist: Option<(i64, i64, i64, i64, Vec<i64>)>,
+}
+
+fn metrics_snap(m: &crate::Metrics) -> (Option<[u64; 11]>, Option<(i64, i64, i64, i64, Vec<i64>)>) {
+    if m.is_noop() {
+        return (None, None);
+    }
+    let c = [
+        m.get_hits().unwrap(),
+        m.get_misses().unwrap(),
+        m.get_keys_added().unwrap(),
+        m.get_keys_updated().unwrap(),
+        m.get_keys_evicted().unwrap(),
+        m.get_cost_added().unwrap(),
+        m.get_cost_evicted().unwrap(),
+        m.get_sets_dropped().unwrap(),
+        m.get_sets_rejected().unwrap(),
+        m.get_gets_dropped().unwrap(),
+        m.get_gets_kept().unwrap(),
+    ];
+    let h = m.life_expectancy_seconds().map(|h| h.verif_snap());
+    (Some(c), h)
+}
+
+pub fn histogram_snap(h: &crate::Histogram) -> (i64, i64, i64, i64, Vec<i64>) {
+    h.verif_snap()
+}
+
+pub fn store_snap<V, U, SS, ES>(s: &ShardedMap<V, U, SS, ES>) -> (Vec<EntrySnap<V>>, Buckets)
+where
+    V: Send + Sync + Clone + 'static,
+    U: crate::UpdateValidator<Value = V>,
+    SS: std::hash::BuildHasher + Clone + 'static,
+    ES: std::hash::BuildHasher + Clone + 'static,
+{
+    let mut es: Vec<EntrySnap<V>> = s
+        .verif_entries()
+        .into_iter()
+        .map(|(index, conflict, value, t)| {
+            let (created_ns, ttl_ns) = t.verif_parts();
+            EntrySnap {
+                index,
+                conflict,
+                value,
+                created_ns,
+                ttl_ns,
+            }
+        })
+        .collect();
+    es.sort_by_key(|e| e.index);
+    (es, s.verif_buckets())
+}
+
+#[cfg(feature = "sync")]
+pub fn snapshot<K, V, KH, C, U, CB, S>(c: &crate::Cache<K, V, KH, C, U, CB, S>) -> CacheSnap<V>
+where
+    K: std::hash::Hash + Eq,
+    V: Send + Sync + Clone + 'static,
+    KH: crate::KeyBuilder<Key = K>,
+    C: crate::Coster<Value = V>,
+    U: crate::UpdateValidator<Value = V>,
+    CB: crate::CacheCallback<Value = V>,
+    S: std::hash::BuildHasher + Clone + 'static,
+{
+    use std::sync::atomic::Ordering;
+    let (store, buckets) = store_snap(&c.store);
+    let (metrics, hist) = metrics_snap(&c.metrics);
+    CacheSnap {
+        store,
+        buckets,
+        policy: c.policy.inner.lock().verif_snap(),
+        ring: c.get_buf.verif_data(),
+        buf_len: c.insert_buf_tx.len(),
+        pol_queue_len: c.policy.items_tx.len(),
+        closed: c.is_closed.load(Ordering::SeqCst),
+        pol_closed: c.policy.is_closed.load(Ordering::SeqCst),
+        item_size: c.store.item_size(),
+        metrics,
+        hist,
+    }
+}
+
+#[cfg(feature = "async")]
+pub fn snapshot_async<K, V, KH, C, U, CB, S>(
+    c: &crate::AsyncCache<K, V, KH, C, U, CB, S>,
+) -> CacheSnap<V>
+where
+    K: std::hash::Hash + Eq,
+    V: Send + Sync + Clone + 'static,
+    KH: crate::KeyBuilder<Key = K>,
+    C: crate::Coster<Value = V>,
+    U: crate::UpdateValidator<Value = V>,
+    CB: crate::CacheCallback<Value = V>,
+    S: std::hash::BuildHasher + Clone + 'static + Send,
+{
+    use std::sync::atomic::Ordering;
+    let (store, buckets) = store_snap(&c.store);
+    let (metrics, hist) = metrics_snap(&c.metrics);
+    CacheSnap {
+        store,
+        buckets,
+        policy: c.policy.inner.lock().verif_snap(),
+        ring: c.get_buf.verif_data(),
+        buf_len: c.insert_buf_tx.len(),
+        pol_queue_len: c.policy.items_tx.len(),
+        closed: c.is_closed.load(Ordering::SeqCst),
+        pol_closed: c.policy.is_closed.load(Ordering::SeqCst),
+        item_size: c.store.item_size(),
+        metrics,
+        hist,
+    }
+}
+
+/// Sets the sketch seeds of a live cache (they are otherwise drawn from the wall clock).
+#[cfg(feature = "sync")]
+pub fn set_seeds<K, V, KH, C, U, CB, S>(c: &crate::Cache<K, V, KH, C, U, CB, S>, seeds: [u64; 4])
+where
+    K: std::hash::Hash + Eq,
+    V: Send + Sync + 'static,
+    KH: crate::KeyBuilder<Key = K>,
+    S: std::hash::BuildHasher + Clone + 'static,
+{
+    c.policy.inner.lock().verif_tlfu_mut().verif_set_seeds(seeds)
+}
+
+#[cfg(feature = "async")]
+pub fn set_seeds_async<K, V, KH, C, U, CB, S>(
+    c: &crate::AsyncCache<K, V, KH, C, U, CB, S>,
+    seeds: [u64; 4],
+) where
+    K: std::hash::Hash + Eq,
+    V: Send + Sync + 'static,
+    KH: crate::KeyBuilder<Key = K>,
+    S: std::hash::BuildHasher + Clone + 'static,
+{
+    c.policy.inner.lock().verif_tlfu_mut().verif_set_seeds(seeds)
+}
